@@ -78,9 +78,9 @@ def build_grid(spec, k=0):
     dims = spec['dims']
     if spec.get('sep', True):
         d = len(dims)
-        return hcipy.CartesianGrid(hcipy.RegularCoords([0.5 * (k + 1), 0.25, 0.125][:d], list(dims), [0.0, -1.0, 2.0][:d]))
+        return hcipy.CartesianGrid(hcipy.RegularCoords([0.5 * (k + 1), 0.25, 0.125][:d], list(dims), [0.0 + k, -1.0, 2.0][:d]))
     n = int(np.prod(dims))
-    return hcipy.CartesianGrid(hcipy.UnstructuredCoords([np.arange(n) * 0.5 * (k + 1), (np.arange(n) % 3) * 1.0]))
+    return hcipy.CartesianGrid(hcipy.UnstructuredCoords([np.arange(n) * 0.5 * (k + 1) + k, (np.arange(n) % 3) * 1.0]))
 
 
 def grid_shape(spec):
@@ -772,6 +772,8 @@ class Builder:
         if t == 'bin':
             return uf([self.tags_of(e[3]), self.tags_of(e[4])])
         if t in ('un',):
+            if e[1] in ('re', 'im'):
+                return self.tags_of(e[3])       # np.real/np.imag are not ufuncs: a 0-d array stays an array
             return uf([self.tags_of(e[3])])
         if t == 'red':
             return uf([self.tags_of(e[4])])
@@ -1008,6 +1010,11 @@ class Builder:
                 if not (to[0] == 'f' and to == tn):
                     name = 'npcopy'
             args = [base] if EXT[name]['ar'] == 1 else [base, self.operand(v)]
+            if EXT[name].get('fieldonly') and len(args) == 2:
+                # … and the other operand must be the same kind of object under both styles
+                t2 = self.tags_of(args[1]) if args[1][0] != 'ext' else ('?', '?')
+                if t2[0] != t2[1] or t2[0] == '?':
+                    args[1] = base
             e = ['ext', name, args]
         if depth < 2 and rng.random() < 0.3 and c not in ('ext',) and k != 'b':
             # wrap once more in an arithmetic node
@@ -1417,6 +1424,30 @@ def _pipelines():
         wf = h.Wavefront(ap * np.exp(1j * pg.x * p['tilt']), 1.0)
         return [c.forward(wf).electric_field]
     P['perfect'] = perfect
+
+    def backend_direct(p):
+        # hcipy/_math/fft.py itself: every function, four dtypes; values and result dtypes
+        from hcipy._math import fft as F
+        rs = np.random.RandomState(p['n'])
+        n = p['n']
+        out = []
+        codes = {'float32': 1., 'float64': 2., 'complex64': 3., 'complex128': 4.}
+        dt = []
+        for dtype in ('float32', 'float64', 'complex64', 'complex128'):
+            x = rs.randint(-8, 9, (n, n + p['odd'])).astype(dtype)
+            if dtype.startswith('complex'):
+                x = x + 1j * rs.randint(-8, 9, x.shape).astype(dtype)
+                x = x.astype(dtype)
+            res = [F.fft(x), F.ifft(x), F.fft2(x), F.ifft2(x), F.fftn(x), F.ifftn(x), F.fft(x, axis=0), F.fftn(x, axes=(0,))]
+            if not dtype.startswith('complex'):
+                r = F.rfft(x)
+                res += [r, F.irfft(r, x.shape[-1]), F.rfft2(x), F.rfftn(x), F.irfft2(F.rfft2(x), x.shape), F.irfftn(F.rfftn(x), x.shape), F.ihfft(x)]
+            else:
+                res += [F.hfft(x, 2 * x.shape[-1] - 2)]
+            out += res
+            dt += [codes.get(str(r.dtype), 0.) for r in res]
+        return out + [np.array(dt)]
+    P['backend_direct'] = backend_direct
     return P
 
 
@@ -1465,7 +1496,18 @@ def check_pipeline(name, params, combos, default):
     try:
         ref = run_pipeline(name, params, {})
     except Exception as e:  # noqa
-        raise MachineryError('pipeline %s fails under the default configuration: %s: %s' % (name, type(e).__name__, e))
+        # not evaluable under the default configuration; a divergence if some other combination works
+        works = None
+        for combo in combos:
+            try:
+                run_pipeline(name, params, combo)
+                works = combo
+                break
+            except Exception:  # noqa
+                pass
+        if works is None:
+            raise MachineryError('pipeline %s fails under every configuration: %s: %s' % (name, type(e).__name__, e))
+        return [(nflips(works, default), works, 'works, whereas the default configuration raises %s: %s' % (type(e).__name__, str(e)[:100]))]
     bad = []
     for combo in combos:
         try:
@@ -1509,6 +1551,7 @@ def oracle(prog, plain, old, new):
         for key, what in run[2]:
             bad.append((key, what))
     ptrace, otrace, ntrace = plain[0], old[0], new[0]
+    tainted = set()        # a style whose values already went wrong: later differences are consequences
     for i, s in enumerate(prog['stmts']):
         sig = stmt_sig(s)
         if i >= len(ptrace):
@@ -1524,6 +1567,8 @@ def oracle(prog, plain, old, new):
             p = o                       # field-only library function: the styles are compared with each other
             pairs = (('new', n, o),)
         for mode, r, other in pairs:
+            if mode in tainted:
+                continue
             if p[0] == 'E':
                 if r[0] != 'E':
                     bad.append(('no-error %s %s' % (mode, sig), '%s raises %s on the reference (plain arrays) but not with %s-style fields' % (sig, p[1], mode)))
@@ -1537,11 +1582,12 @@ def oracle(prog, plain, old, new):
                 stop = True
             elif not same_obs_values(r[1], p[1]):
                 bad.append(('values %s %s' % (mode, sig), '%s gives %s with %s-style fields, the plain-array reference gives %s' % (sig, short(r[1]), mode, short(p[1]))))
+                tainted.add(mode)
         if stop:
             break
     if plain[1] is not None:
         for mode, run in (('old', old), ('new', new)):
-            if run[1] is None:
+            if run[1] is None or mode in tainted:
                 continue
             for x in prog['final']:
                 a, b = run[1].get(x), plain[1].get(x)
@@ -1735,7 +1781,7 @@ def run(ctx):
                 'dtype classes and exception classes at every statement and in the final read-out of every variable (aliases included); '
                 'every elementwise node with a Field operand must return a Field on that grid; copy/pickle must return an independent equal '
                 'Field. Correspondence: tag (Field+grid / ndarray / scalar), shape, dtype class and values of every observation of each '
-                'style against the matching model route. Pipelines: 19 library computations under all 64 configuration combinations '
+                'style against the matching model route. Pipelines: 20 library computations (incl. hcipy._math.fft called directly on four dtypes) under all 64 configuration combinations '
                 'against the default. Non-trivial = at least three statements; distinct by the sequence of statement signatures.')
     ctx.assumptions += ['plain ndarray arithmetic is the reference for the values',
                         'dyadic inputs: results are exact or within 1e-12 of the exact value',
@@ -1752,8 +1798,8 @@ def run(ctx):
 def _run(ctx):
     rng = ctx.rng
     progs = [(p, 'directed') for p in DIRECTED]
-    n_core = ctx.scale(700, 12000)
-    n_ext = ctx.scale(500, 9000)
+    n_core = ctx.scale(1500, 25000)
+    n_ext = ctx.scale(1200, 18000)
     for k in range(n_core):
         progs.append((gen_program(rng, ext=False, big=(ctx.tier == 'thorough' and k % 3 == 0)), 'core'))
     for k in range(n_ext):
@@ -1776,7 +1822,7 @@ def _run(ctx):
     default = {k: default[k] for k in ('new_style', 'emulate', 'mft_pre', 'mft_alloc', 'nft_pre', 'method')}
     combos = all_combos()
     names = sorted(_pipelines())
-    reps = ctx.scale(1, 4)
+    reps = ctx.scale(1, 6)
     for rep in range(reps):
         for name in names:
             params = {'n': int(rng.choice([8, 9, 12, 16, 17, 24, 32])), 'q': int(rng.integers(1, 5)), 'nairy': int(rng.integers(2, 7)),
